@@ -1,0 +1,31 @@
+//go:build verif
+
+package postgresql
+
+// Add-only accessors for the verification harness (/verif, check C05, domain c05prep): a read-only
+// view of the prepared-statement / portal registry of one PgProxy and of its queue of pending query
+// packets.  The harness reads them between two protocol messages (after it has observed the packet
+// the proxy emitted for the previous one).  No behaviour is changed; compiled only with -tags verif.
+
+// VerifS43Statements returns name -> text of the registered prepared statements.
+func (proxy *PgProxy) VerifS43Statements() map[string]string {
+	out := map[string]string{}
+	for name, s := range proxy.registry.statements {
+		out[name] = s.QueryText()
+	}
+	return out
+}
+
+// VerifS43Cursors returns portal name -> text of the prepared statement the portal is bound to.
+func (proxy *PgProxy) VerifS43Cursors() map[string]string {
+	out := map[string]string{}
+	for name, c := range proxy.registry.cursors {
+		out[name] = c.PreparedStatement().QueryText()
+	}
+	return out
+}
+
+// VerifS43Pending returns the SQL text of the queued query packets, head first.
+func (proxy *PgProxy) VerifS43Pending() []string {
+	return proxy.protocolState.VerifPendingQueries()
+}
